@@ -71,6 +71,10 @@ def lookup_terms(prog, fn):
         while floop is not None and not isinstance(floop, ast.For):
             floop = getattr(floop, '_parent', None)
         keeps = [norm(x.test) for x in ast.walk(floop) if isinstance(x, ast.If)] if floop is not None else []
+        if floop is not None and isinstance(floop.target, ast.Tuple) and len(floop.target.elts) == 2 and isinstance(floop.target.elts[1], ast.Name):
+            import re
+            wv = floop.target.elts[1].id  # the variable bound to the Location of each merged element
+            keeps = [re.sub(r'\b%s\b' % re.escape(wv), 'where', k) for k in keeps]
         t['keep'] = keeps
         large_app = [c for c in ast.walk(floop) if isinstance(c, ast.Call) and isinstance(c.func, ast.Attribute) and c.func.attr == 'append'] if floop is not None else []
         t['large_acc'] = sorted({norm(c.func.value).split('[')[0] for c in large_app})
@@ -239,9 +243,16 @@ def run(ctx):
     # ---------------------------------------------------------------- R4
     d = prog.fn('utils:detect_where_sorted')
     guards = {}
+    # the "current element" variable of each side = target of the top-level `X = next(<side iterator>)` (before the merge loop)
+    LAST = {}
+    for tr in [n for n in d.node.body if isinstance(n, ast.Try)]:
+        nx = [s for s in tr.body if isinstance(s, ast.Assign) and isinstance(s.value, ast.Call) and norm(s.value.func) == 'next' and isinstance(s.targets[0], ast.Name)]
+        if nx and nx[0].value.args:
+            LAST['left' if 'left' in norm(nx[0].value.args[0]) else 'right'] = nx[0].targets[0].id
+    chk.require(set(LAST) == {'left', 'right'}, 'detect_where_sorted: initial next() of both iterators not found')
     for tr in [n for n in walk_local(d.node) if isinstance(n, ast.Try)]:
         nx = [s for s in tr.body if isinstance(s, ast.Assign) and isinstance(s.value, ast.Call) and norm(s.value.func) == 'next']
-        if not nx or not isinstance(nx[0].targets[0], ast.Name) or nx[0].targets[0].id.startswith('last_'):
+        if not nx or not isinstance(nx[0].targets[0], ast.Name) or nx[0].targets[0].id in LAST.values():
             continue
         side = 'left' if 'left' in norm(nx[0].value.args[0]) else 'right'
         new = nx[0].targets[0].id
@@ -249,9 +260,9 @@ def run(ctx):
         okg = False
         if ifs and isinstance(ifs[0].test, ast.Compare) and isinstance(ifs[0].test.ops[0], ast.LtE):
             l, r = norm(ifs[0].test.left), norm(ifs[0].test.comparators[0])
-            okg = new in l and f'last_{side}' in r
+            okg = new in l and LAST[side] in r
             # assignment of last_<side> = new after the guard
-            asg = [s for s in tr.body if isinstance(s, ast.Assign) and norm(s.targets[0]) == f'last_{side}' and norm(s.value) == new]
+            asg = [s for s in tr.body if isinstance(s, ast.Assign) and norm(s.targets[0]) == LAST[side] and norm(s.value) == new]
             okg = okg and asg and tr.body.index(asg[0]) > tr.body.index(ifs[0]) > tr.body.index(nx[0])
             if side == 'left':
                 okg = okg and 'left_key(' in l and 'left_key(' in r
@@ -263,8 +274,9 @@ def run(ctx):
             chk.bad(R4, d.qualname, f'{side} iterator guard', f'elements taken from the {side} iterator are no longer checked with `new <= last -> ValueError` before use: unsorted or repeated input is silently misclassified',
                     where=f'{d.module.relpath}:{d.lineno}')
     # comparisons between sides use left_key on the left
-    cmps = [n for n in walk_local(d.node) if isinstance(n, ast.Compare) and 'last_left' in norm(n) and 'last_right' in norm(n)]
-    badc = [c for c in cmps if 'left_key(last_left)' not in norm(c)]
+    cmps = [n for n in walk_local(d.node) if isinstance(n, ast.Compare) and LAST['left'] in {x.id for x in ast.walk(n) if isinstance(x, ast.Name)}
+            and LAST['right'] in {x.id for x in ast.walk(n) if isinstance(x, ast.Name)}]
+    badc = [c for c in cmps if f"left_key({LAST['left']})" not in norm(c)]
     if cmps and not badc:
         chk.ok(R4, d.qualname, f'{len(cmps)} cross comparisons', detail='always left_key(last_left) vs last_right', nontrivial=False)
     else:
